@@ -4,8 +4,11 @@ import json, os, subprocess, sys, glob, re
 ROOT = os.path.dirname(os.path.dirname(os.path.abspath(__file__)))
 rp = os.path.join(ROOT, 'seeded', 'results.json')
 res = json.load(open(rp)) if os.path.exists(rp) else {}
+jobs = 1
+if '--jobs' in sys.argv:
+    k_ = sys.argv.index('--jobs'); jobs = int(sys.argv[k_ + 1]); del sys.argv[k_:k_ + 2]
 names = sys.argv[1:] or sorted(os.path.basename(d) for d in glob.glob(os.path.join(ROOT, 'seeded', 'C*_*')))
-for n in names:
+def one(n):
     prop = n.split('_')[0]
     extra = json.load(open(os.path.join(ROOT, 'seeded', n, 'meta.json'))).get('also_check', [])
     r = subprocess.run(['python3', os.path.join(ROOT, 'tools', 'seedtest.py'), os.path.join(ROOT, 'seeded', n, 'patch.diff'), prop] + extra + ['--show'], capture_output=True, text=True, cwd=ROOT)
@@ -16,5 +19,8 @@ for n in names:
         if m: rc[m.group(1)] = int(m.group(2))
     obl = [l.strip() for l in lines if l.startswith('       ')]
     verdict = 'CAUGHT' if any(v == 1 for v in rc.values()) else ('UNDECIDED (exit 2)' if any(v == 2 for v in rc.values()) else 'MISSED (exit 0)')
-    res[n] = '%s by %s: %s' % (verdict, ','.join(k for k, v in rc.items() if v == 1) or ','.join(rc), '; '.join(o[:110] for o in obl[:2]))
-    print(n, res[n][:200]); json.dump(res, open(rp, 'w'), indent=1)
+    return n, '%s by %s: %s' % (verdict, ','.join(k for k, v in rc.items() if v == 1) or ','.join(rc), '; '.join(o[:110] for o in obl[:2]))
+from concurrent.futures import ThreadPoolExecutor
+with ThreadPoolExecutor(max_workers=jobs) as ex:
+    for n, v in ex.map(one, names):
+        res[n] = v; print(n, v[:200], flush=True); json.dump(res, open(rp, 'w'), indent=1)
